@@ -9,6 +9,13 @@ S2  schedules = sequences "who moves next" (0 = clock tick): TLC random simulati
 S3  harness/cmd/c12 forces each schedule on the real breaker through api.Entry/Exit with goroutines parked at
     the cb.* yield points (build tag verif) and records steps, ticks, listener callbacks and results.
 S4  spec/BreakerConc_Trace.tla (TLC) judges every recorded execution: LegalPath, NoEarlyProbe, ExclusiveProbe.
+
+Rule reloads racing with requests / completions: spec/BreakerConcReload.tla = the BreakerConc model (fixed order) with
+breaker OBJECTS and a loader process (identical rule -> object kept; statistic-reusable rule -> new object, Closed).
+S1 checks it exhaustively (per object every clause; for the object in service NoEarlyProbePub on the state word it
+looks at); its mutant ShareState (new object shares the state word of the old one, copies the deadline by value) must
+violate NoEarlyProbePub and LegalPerObject and the counterexample schedules (-1 = the loader moves) are forced on the
+real code, as are TLC simulations of the model and seeded random / single-preemption schedules with a reload step.
 """
 import json, os, re
 from vlib import main, write_ndjson, read_ndjson, MachineryError
@@ -33,6 +40,41 @@ CHECK_DEADLOCK FALSE
 def cfg(nc=3, timeout=2, probenum=0, maxt=4, initopen=False, dlfirst=True, extra='', inv='NoEarlyProbePub'):
     return CFG % dict(inv=inv, nc=nc, timeout=timeout, probenum=probenum, maxt=maxt, initopen='TRUE' if initopen else 'FALSE',
                       dlfirst='TRUE' if dlfirst else 'FALSE', extra=extra)
+
+
+RCFG = """SPECIFICATION Spec
+CONSTANTS
+  NC = %(nc)d
+  Errs <- %(errs)s
+  Timeout = %(timeout)d
+  ProbeNum = %(probenum)d
+  Thr = %(thr)d
+  MinAmt = 1
+  MaxT = %(maxt)d
+  InitOpen = %(initopen)s
+  Reload = "%(reload)s"
+  Thr2 = %(thr2)d
+  ShareState = %(share)s
+VIEW view
+%(inv)s
+CHECK_DEADLOCK FALSE
+%(extra)s"""
+
+
+def rcfg(nc=3, timeout=2, probenum=0, maxt=3, initopen=False, thr=1, thr2=2, reload='changed', share=False, allerr=False, extra='',
+         inv='NoEarlyProbePub LegalPerObject ExclusiveProbe ReportedOnce'):
+    return RCFG % dict(nc=nc, timeout=timeout, probenum=probenum, maxt=maxt, initopen='TRUE' if initopen else 'FALSE', thr=thr, thr2=thr2,
+                       reload=reload, share='TRUE' if share else 'FALSE', errs='MCErrsAll' if allerr else 'MCErrs', extra=extra,
+                       inv=('INVARIANTS ' + inv) if inv else '')
+
+
+def rscenario(tr, sched, k, unit=1000):
+    """scenario of a BreakerConcReload configuration k: the loader (-1 in the schedule) reloads the rule with threshold thr2"""
+    nc = k.get('nc', 3)
+    thr, thr2 = k.get('thr', 1), k.get('thr2', 2)
+    return dict(tr=tr, unit=unit, timeout=2, probenum=k.get('probenum', 0), thr=thr, minamt=1, initopen=k.get('initopen', False),
+                errs=[True] * nc if k.get('allerr') else errs(nc), sched=sched,
+                reloads=[dict(thr=thr2 if k.get('reload', 'changed') == 'changed' else thr, via='all' if tr % 2 else 'res')])
 
 
 def errs(nc):
@@ -88,7 +130,7 @@ def classify(exp):
     except Exception:
         return None
     cls = set(e.get('early') or [])
-    if e.get('legal') and e.get('exclusive') and cls and cls <= set(KEYS):
+    if e.get('legal') and e.get('exclusive') and e.get('objects', True) and cls and cls <= set(KEYS):
         return [KEYS[x] for x in sorted(cls)]
     return None
 
@@ -129,12 +171,19 @@ def binding_selftest(c, tp):
             cur = []
             traces.append(cur)
         cur.append(e)
-    out, want = [], 0
+    out, want, nobj = [], 0, 0
     for t in traces:
-        if want >= 30:
+        if want >= 40:
             break
         oh = [e for e in t if e['op'] == 'listen' and e['to'] == 'H']
-        if oh and want % 2 == 0:
+        if any(e['op'] == 'reload' for e in t) and any(e['op'] == 'listen' for e in t) and nobj < 10:
+            # a transition is reported for a breaker (rule threshold) that never existed
+            t = [dict(e) for e in t]
+            [e for e in t if e['op'] == 'listen'][-1]['thr'] = 77
+            out += t
+            want += 1
+            nobj += 1
+        elif oh and want % 2 == 0:
             # the winner compared the deadline earlier than it really did
             p = oh[0]['p']
             t = [dict(e) for e in t]
@@ -161,7 +210,7 @@ def binding_selftest(c, tp):
     mism, consumed, r = c.validate('BreakerConc_Trace', cp, len(out))
     if len({m[0] for m in mism}) != want:
         raise MachineryError('binding self-test failed: %d corrupted traces, %d rejected' % (want, len(mism)))
-    c.cov['binding_selftest'] = '%d corrupted traces (early deadline compare / duplicated report), all rejected' % want
+    c.cov['binding_selftest'] = '%d corrupted traces (early deadline compare / duplicated report / report for a breaker object that never existed: %d), all rejected' % (want, nobj)
     c.log('binding self-test: %d corrupted traces, all rejected' % want)
 
 
@@ -217,6 +266,41 @@ def check(c, tier, replay):
             leads.append('%s: %s' % (inv, scns[-1]['sched']))
     c.cov['design_leads'] = leads
     c.log('S1 leads (residues of the two-word design, replayed on the real code): %s' % leads)
+    # rule reloads racing with requests / completions: BreakerConcReload (objects + loader) ------------------------
+    rconfigs = [dict(nc=3, initopen=False, thr=1, thr2=2, maxt=3), dict(nc=2, initopen=True, thr=2, thr2=1, maxt=4, allerr=True),
+                dict(nc=2, initopen=True, thr=1, thr2=2, maxt=4, probenum=1, allerr=True), dict(nc=3, initopen=False, thr=1, thr2=2, maxt=3, reload='same')]
+    if thorough:
+        rconfigs += [dict(nc=3, initopen=True, thr=1, thr2=2, maxt=4), dict(nc=3, initopen=True, thr=2, thr2=1, maxt=4, allerr=True),
+                     dict(nc=3, initopen=False, thr=1, thr2=1, maxt=4, allerr=True)]
+    for k in rconfigs:
+        r = c.model_check('BreakerConcReload_MC', cfg_text=rcfg(**k), workers=8, timeout=2400, heap='12g')
+        if not r.completed:
+            c.inconclusive.append('BreakerConcReload.tla violates %s for %s: the design model of a reload is wrong' % (r.violated, k))
+    nmut = 0
+    for k in (dict(nc=3, initopen=False, thr=1, thr2=2, maxt=3), dict(nc=2, initopen=True, thr=2, thr2=1, maxt=4, allerr=True)):
+        for inv in ('NoEarlyProbePub', 'LegalPerObject'):
+            r = c.tlc('BreakerConcReload_MC', cfg_text=rcfg(share=True, inv=inv, **k), workers=4, timeout=600, count=False)
+            if r.violated != inv:
+                raise MachineryError('vacuity guard: the ShareState mutant of BreakerConcReload (state word shared, deadline copied at reload) '
+                                     'must violate %s, got %s' % (inv, r.violated or r.error))
+            sched = last_sched(r.out)
+            if not sched or -1 not in sched:
+                raise MachineryError('could not extract the counterexample schedule of the ShareState mutant')
+            tr += 1
+            nmut += 1
+            scns.append(rscenario(tr, sched + [1, 2, 3] * 8, k))
+    c.cov['spec_mutant_reload'] = ('ShareState=TRUE (new breaker shares the state word of the replaced one, deadline copied by value) violates '
+                                   'NoEarlyProbePub and LegalPerObject; %d counterexample schedules replayed on the real code' % nmut)
+    c.log('S1 vacuity guard (reload): ShareState mutant rejected; counterexample schedule %s' % scns[-nmut]['sched'])
+    for k in rconfigs[:3]:
+        num = 80 if not thorough else 800
+        r = c.tlc('BreakerConcReload_MC', cfg_text=rcfg(extra='ACTION_CONSTRAINT Emit\n', inv='', **k),
+                  workers=1, timeout=900, count=False, args=['-simulate', 'num=%d' % num, '-depth', '70', '-seed', str(c.seed)])
+        hs = [h for h in maximal(r.json_prints()) if -1 in h]
+        for sch in hs:
+            tr += 1
+            scns.append(rscenario(tr, sch, k))
+        c.log('S2 TLC simulation of BreakerConcReload %s: %d schedules with a reload' % (k, len(hs)))
     # S2 ---------------------------------------------------------------------------------------
     for k in configs[:3]:
         num = 120 if not thorough else 1200
@@ -239,6 +323,12 @@ def check(c, tier, replay):
         sched = [rng.choice([0] + list(range(1, nc + 1)) * 4) for _ in range(n)]
         scns.append(scenario(tr, sched, nc=nc, timeout=timeout, probenum=rng.choice([0, 0, 0, 1, 2]), initopen=rng.random() < 0.6,
                              errv=[rng.random() < 0.5 for _ in range(nc)]))
+        if i % 3 == 0:      # the loader replaces the rule somewhere in the schedule (statistic-reusable: another threshold; 1 in 4: identical)
+            s = scns[-1]
+            s['thr'] = rng.choice([1, 1, 2])
+            s['reloads'] = [dict(thr=rng.choice([s['thr'], 1, 2, 3, 3]), via=rng.choice(['all', 'res']))]
+            s['sched'].insert(rng.randint(0, min(len(sched), 25)), -1)
+            s['errs'] = [rng.random() < 0.7 for _ in range(nc)]
     # one long preemption: goroutine p runs to its k-th yield point and is parked while the others run whole
     # operations (with the clock advancing by about one timeout at chosen places), then p resumes
     import itertools
@@ -257,7 +347,31 @@ def check(c, tier, replay):
                             tr += 1
                             npre += 1
                             scns.append(scenario(tr, sched, nc=nc, timeout=2, probenum=0, initopen=initopen, errv=errv))
+    # the same single preemption with the rule reloaded while p is parked inside the breaker code of the OLD list (and, second
+    # shape, right before p starts: p then completes on the object built while another goroutine was inside the old one)
+    nprl = 0
+    for nc, errv, initopen, thr, thr2 in ((3, [True, True, False], False, 1, 2), (3, [True, False, True], True, 2, 1), (2, [True, True], False, 1, 3),
+                                          (3, [False, True, True], True, 1, 1)):
+        for p in range(1, nc + 1):
+            others = [q for q in range(1, nc + 1) if q != p]
+            for k in range(1, 11):
+                for perm in itertools.permutations(others):
+                    for t0, t1 in ((0, 0), (2, 0), (0, 2), (2, 2)):
+                        for shape in (0, 1):
+                            rest = [q for q in perm for _ in range(30)]
+                            if shape == 0:
+                                sched = [0] * t0 + [p] * k + [-1] + [perm[0]] * 30 + [0] * t1 + [p] * 30 + rest[30:] + list(perm) * 10
+                            else:
+                                sched = [0] * t0 + [p] * k + [perm[0]] * (k % 5 + 1) + [-1] + [p] * 30 + [0] * t1 + rest + list(perm) * 10
+                            tr += 1
+                            nprl += 1
+                            s = scenario(tr, sched, nc=nc, timeout=2, probenum=0, initopen=initopen, errv=errv)
+                            s['thr'] = thr
+                            s['reloads'] = [dict(thr=thr2, via='all' if nprl % 2 else 'res')]
+                            scns.append(s)
     c.cov['preemption_schedules'] = npre
+    c.cov['preemption_schedules_with_reload'] = nprl
+    c.cov['schedules_with_reload'] = sum(1 for s in scns if s.get('reloads') and -1 in s['sched'])
     # S3 + S4 ----------------------------------------------------------------------------------
     first = True
     for i in range(0, len(scns), 3000):
@@ -268,7 +382,7 @@ def check(c, tier, replay):
         if first and not c.violations:
             binding_selftest(c, tp)
             first = False
-    c.cov['distinct_nontrivial'] = len({json.dumps([s['sched'], s['errs'], s['initopen'], s['probenum'], s['timeout']]) for s in scns
+    c.cov['distinct_nontrivial'] = len({json.dumps([s['sched'], s['errs'], s['initopen'], s['probenum'], s['timeout'], s.get('thr'), s.get('reloads')]) for s in scns
                                         if s['initopen'] or any(s['errs'])})
     c.cov['rule'] = ('schedule = sequence of "goroutine i moves to its next cb.* yield point" / clock tick, forced on the real breaker; '
                      '%d from TLC (simulation of BreakerConc + counterexamples of its swap-then-store mutant), rest seeded random; '
@@ -278,6 +392,8 @@ def check(c, tier, replay):
     c.sample(scns[-1])
     c.assumptions += ['the state word is swapped in the step resuming from cb.cas, the deadline is compared in the step resuming from cb.deadline.load (hook placement)',
                       'one breaker (error-count strategy) per resource; the three strategies share the transition code',
+                      'at most one reload per schedule; the reloaded rule differs in the threshold only (statistic-reusable) or is identical; breaker objects are told apart by the threshold the listener is handed',
+                      'a goroutine acts on the breaker object in service when it fetched the list: in its step from "start" (Entry) and from "drv.exit" (Exit)',
                       'exhaustive interleavings only for the bounded configurations listed in tlc_runs']
     if thorough: import stages; stages.run_stage(c, 'REFINE', 'refinement_stage')   # BreakerConc => Breaker, WindowConc => Window, AdmitPath => FlowQps / Isolation (checks/REFINE.py)
 
